@@ -151,7 +151,10 @@ pub fn invariant_core<S: Sch>(e: &Enr<S::K>, obs: &Obs, expect_owner: Option<usi
                 v.push(("C04", "decode(encode(r)) differs from r".into(), String::new()));
             }
         }
-        Ok(Err(err)) => v.push(("C05", "(e) decoder rejects the record's own encoding".into(), err)),
+        Ok(Err(err)) => {
+            v.push(("C05", "(e) decoder rejects the record's own encoding".into(), err.clone()));
+            v.push(("C04", "decode(encode(r)) fails".into(), err));
+        }
         Err(p) => v.push(("C03", "decode panics on a record's own encoding".into(), p)),
     }
     v
@@ -823,6 +826,10 @@ pub fn c09_builder_sweep<S: Sch>(seqs: &[u64], lo: usize, hi: usize, rep: &mut R
                 match r {
                     Ok(Ok(e)) => {
                         let enc = real::encode(&e);
+                        let obs = real::observe(&e);
+                        for (p, clause, detail) in invariant::<S>(&e, &obs, Some(0)) {
+                            push(p, &format!("{clause} {detail}"));
+                        }
                         if enc.len() != target {
                             mach = Some(format!("builder size sweep: predicted {target} but built {} bytes", enc.len()));
                         }
